@@ -17,6 +17,7 @@ type Random struct {
 	mapValues               map[string]struct{}
 	endpoints               []endpoint.Endpoint
 	staticWeightRouterCache []int
+	randMu                  sync.Mutex // rand.Rand is not safe for concurrent use; Select runs under the read lock
 	rand                    *rand.Rand
 }
 
@@ -38,10 +39,16 @@ func (r *Random) Select(_ selector.Message) (endpoint.Endpoint, error) {
 		return ep, errors.New("random: no such endpoint.Endpoint")
 	}
 	if len(r.staticWeightRouterCache) != 0 {
-		idx := r.staticWeightRouterCache[r.rand.Intn(len(r.staticWeightRouterCache))]
+		idx := r.staticWeightRouterCache[r.intn(len(r.staticWeightRouterCache))]
 		return r.endpoints[idx], nil
 	}
-	return r.endpoints[r.rand.Intn(len(r.endpoints))], nil
+	return r.endpoints[r.intn(len(r.endpoints))], nil
+}
+
+func (r *Random) intn(n int) int {
+	r.randMu.Lock()
+	defer r.randMu.Unlock()
+	return r.rand.Intn(n)
 }
 
 func (r *Random) Refresh(eps []endpoint.Endpoint) {
